@@ -52,8 +52,11 @@ pub fn ev_cases(pl: &Plain, two_d: bool, thorough: bool) -> Vec<EvCase> {
     let mut v = vec![];
     let pts = placements(pl, thorough);
     let sol = pl.sol();
-    for scale in [1.0, 1e-6] {
+    for scale in [1.0, 1e-6, 1e-170] {
         for d in DIRS {
+            if scale < 1e-100 && d != Direction::All {
+                continue;
+            }
             for (t, name) in &pts {
                 v.push(EvCase { label: format!("t-c @{} scale={:e} {:?}", name, scale, d), specs: vec![EventSpec::new(EvKind::T(*t)).scale(scale).dir(d)], known_root: Some(*t) });
                 v.push(EvCase { label: format!("-(t-c) @{} scale={:e} {:?}", name, scale, d), specs: vec![EventSpec::new(EvKind::NegT(*t)).scale(scale).dir(d)], known_root: Some(*t) });
@@ -142,7 +145,7 @@ fn c08(s: &Solution, grid: &[(f64, Vec<f64>)], specs: &[EventSpec], dir: f64, ym
             }
             // configured direction, judged at the bracketing endpoints when they have strict opposite signs
             let (ga, gb) = (sp.g(gt[k], gy[k]), sp.g(gt[k + 1], gy[k + 1]));
-            if ga * gb < 0.0 {
+            if (ga < 0.0 && gb > 0.0) || (ga > 0.0 && gb < 0.0) {
                 let rising = gb > ga;
                 match sp.dir {
                     Direction::Positive if !rising => v.push(("direction".into(), format!("event {} (Positive) reported for a falling crossing at t={:e}", i, t))),
@@ -174,7 +177,7 @@ fn c09(s: &Solution, grid: &[(f64, Vec<f64>)], specs: &[EventSpec], dir: f64, kn
                 let (a, b) = (g[k], g[k + 1]);
                 if a == 0.0 || b == 0.0 || a.is_nan() || b.is_nan() {
                     Cls::Free
-                } else if a * b < 0.0 {
+                } else if (a < 0.0 && b > 0.0) || (a > 0.0 && b < 0.0) {
                     let rising = b > a;
                     match sp.dir {
                         Direction::All => Cls::Expect,
@@ -232,7 +235,7 @@ fn c09(s: &Solution, grid: &[(f64, Vec<f64>)], specs: &[EventSpec], dir: f64, kn
         // an exact zero at an interior endpoint with strict opposite signs on both sides must be
         // reported from one of the two adjacent steps (or from both): never from neither
         for k in 1..m - 1 {
-            if g[k] == 0.0 && g[k - 1] * g[k + 1] < 0.0 {
+            if g[k] == 0.0 && ((g[k - 1] < 0.0 && g[k + 1] > 0.0) || (g[k - 1] > 0.0 && g[k + 1] < 0.0)) {
                 let rising = g[k + 1] > g[k - 1];
                 let wanted = match sp.dir {
                     Direction::All => true,
